@@ -82,6 +82,9 @@ type C13Sc struct {
 	// by the client's transport; with more the dial may fail, but if it succeeds it has negotiated what the server
 	// advertises like any other dial (a server that hangs up has not said that it lacks discovery)
 	Drops int `json:"drops,omitempty"`
+	// ClientExtra: the client is also configured for a version the library has no name for: 1 = its set plus 2.0,
+	// 2 = 2.0 alone. The configured set is what the caller says it is
+	ClientExtra int `json:"client_extra,omitempty"`
 }
 
 type C13Second struct {
@@ -124,6 +127,9 @@ func genC13(g *simrt.Tape, tier string) any {
 	if !sc.Real && !sc.Reconnect && sc.Enforce < 0 && g.Draw(5) == 0 {
 		sc.Drops = 1 + g.Draw(5)
 	}
+	if !sc.Default && sc.Enforce < 0 && g.Draw(6) == 0 {
+		sc.ClientExtra = 1 + g.Draw(2)
+	}
 	sc.Chunk = []int{simnet.ChunkMax, simnet.ChunkRandom, simnet.ChunkByte}[g.Draw(3)]
 	if g.Draw(3) == 0 {
 		sc.StallPM = 100
@@ -148,6 +154,11 @@ func c13Grid(tier string) []*C13Sc {
 				out = append(out, &C13Sc{Client: c, Server: s, Beh: behPermuted, Order: o, Enforce: -1, FollowUp: true})
 				if o < 3 {
 					out = append(out, &C13Sc{Client: c, Server: s, Beh: behForeignMajor, Order: o, Enforce: -1, FollowUp: true})
+				}
+				if (c+s)%5 == o {
+					// a client also (or only) configured for 2.0, against servers that list 1.x only and one that lists 2.x too
+					out = append(out, &C13Sc{Client: c, Server: s, Beh: []int{behConformant, behForeignMajor, behUnsupported}[(c+s+o)%3], ClientExtra: 1 + (c+s)%2, Enforce: -1, FollowUp: true})
+					out = append(out, &C13Sc{Client: c, Server: s, Real: true, ClientExtra: 1 + (c+s)%2, Enforce: -1, FollowUp: true})
 				}
 				if (c+s)%4 == o {
 					// the server hangs up on the first requests of the dial
@@ -234,6 +245,14 @@ func execC13(x *X, scAny any) {
 	sc := scAny.(*C13Sc)
 	s := x.S
 	cset := setOf(sc.Client)
+	v20 := kmip.ProtocolVersion{ProtocolVersionMajor: 2, ProtocolVersionMinor: 0}
+	switch {
+	case sc.Default || sc.Enforce >= 0:
+	case sc.ClientExtra == 1:
+		cset = append(cset, v20)
+	case sc.ClientExtra == 2:
+		cset = []kmip.ProtocolVersion{v20}
+	}
 	sset := setOf(sc.Server)
 	discoveries := 0
 	dialled, finished := false, false
@@ -514,6 +533,9 @@ func execC13(x *X, scAny any) {
 			adv = nil
 		default:
 			adv = intersect(sset, cset)
+		}
+		if sc.ClientExtra != 0 && !sc.Default {
+			adv = advertised // (what the scripted server actually listed: it may speak 2.0 as well)
 		}
 		if v, ok := maxVersion(intersect(cset, adv)); ok {
 			exp.version = v
